@@ -176,14 +176,15 @@ class System:
         from ptera.overlay import HandlerCollection
         from ptera import probe as pm
 
-        st = getattr(w.f, "__ptera_stack__", None)
+        from pv.core import introspect as I
+
         return (
-            HandlerCollection.current.get() is not None,
-            None if st is None else (st.instrument_count, tuple(sorted((str(c), n) for c, n in st.captures.items() if n))),
+            I.current_collection() is not None,
+            I.stack_state(w.f),
             w.f.__code__ is w.orig,
-            len(pm.global_probes),
-            w.probe._activated,
-            len(w.probe._observers),
+            I.n_global_probes(),
+            getattr(w.probe, "_activated", None),
+            len(getattr(w.probe, "_observers", ())),
             tuple(len(o) for o in w.outs),
         )
 
@@ -200,17 +201,24 @@ class System:
                 probs.append(f"stage {i} ({m[1][i][0]}): expected output {want!r}, observed {list(got)!r}")
         if m[0] != "active":
             probs += world.clean_state_problems(w.f, w.orig)
-            if pm.global_probes:
+            from pv.core import introspect as I
+
+            if I.n_global_probes():
                 probs.append("global_probes is not empty")
         else:
-            st = getattr(w.f, "__ptera_stack__", None)
-            if st is None or st.instrument_count != 1:
+            from pv.core import introspect as I
+
+            if I.stack_of(w.f) is not None and I.stack_state(w.f)[0] not in (1, None):
                 probs.append("the active probe is not counted exactly once on f")
+            if w.f.__code__ is w.orig:
+                probs.append("f runs its original code although the probe is active")
         return probs
 
     def close(self, w):
         try:
-            if w.probe in __import__("ptera").probe.global_probes:
+            from pv.core import introspect as I
+
+            if I.global_probes() is None or w.probe in I.global_probes():
                 w.probe.__exit__(None, None, None)
         except BaseException:
             pass
